@@ -23,7 +23,7 @@ var c12Routes = []string{
 	"/users/{user-id}/posts/{post.id}", "/{a~b}/{c@d: /x+/}", "/{k=v}-{l+m}", "/t/{(p)}/{**}",
 }
 
-var c12Values = []string{"\x00absent", "v", "", "{x}", "{y}", "{self}", "a/b", "}", "{", "%2F", "x y"}
+var c12Values = []string{"\x00absent", "v", "", "{x}", "{y}", "{self}", "a/b", "}", "{", "%2F", "x y", "v/y/v"}
 
 type c12Case struct {
 	Route   string            `json:"route"`
@@ -188,6 +188,80 @@ func c12Inverse(m *ref.Matcher, cr catRoute, raw string) (bad string, dispatched
 	return "", true // parameters not explained by any alignment: C02's finding
 }
 
+// c12Sequence performs every build of one route on ONE router instance, forwards and backwards, and
+// compares each with the model. Returns the first mismatch.
+func c12Sequence(cr catRoute, l *core.Local) (first string) {
+	binds := cr.Ref.Binds()
+	if len(binds) == 0 || len(binds) > 3 {
+		return ""
+	}
+	f := flamego.NewWithLogger(io.Discard)
+	if pan := func() (pv interface{}) {
+		defer func() { pv = recover() }()
+		f.Get(cr.Text, func() {}).Name("r")
+		return nil
+	}(); pan != nil {
+		return ""
+	}
+	l.States++
+	var all [][]int
+	n := 1
+	for range binds {
+		n *= len(c12Values)
+	}
+	for c := 0; c < n; c++ {
+		idx := make([]int, len(binds))
+		x := c
+		for i := range idx {
+			idx[i] = x % len(c12Values)
+			x /= len(c12Values)
+		}
+		all = append(all, idx)
+	}
+	for pass := 0; pass < 2; pass++ {
+		for k := range all {
+			idx := all[k]
+			if pass == 1 {
+				idx = all[len(all)-1-k]
+			}
+			vals := c12ValsOf(binds, idx)
+			for _, wo := range []string{"", "true"} {
+				// pairs in bind order (deterministic), so that equal joined texts can collide
+				var pairs []string
+				for _, b := range binds {
+					if v, ok := vals[b]; ok {
+						pairs = append(pairs, b, v)
+					}
+				}
+				if wo != "" {
+					pairs = append(pairs, "withOptional", wo)
+				}
+				l.Evals++
+				l.Transitions++
+				l.Traces++
+				want := cr.Ref.BuildURL(vals, wo == "true")
+				var got string
+				pan := func() (pv interface{}) {
+					defer func() { pv = recover() }()
+					got = f.URLPath("r", pairs...)
+					return nil
+				}()
+				if pan != nil || got != want {
+					bad := fmt.Sprintf("after earlier builds on the same router, URLPath(%q) = %q (panic %v), one-pass substitution gives %q [route %q]", pairs, got, pan, want, cr.Text)
+					if first == "" {
+						first = bad
+					}
+					l.Class("mismatch")
+					l.Violate("sequence-of-builds/Router.URLPath", bad, c12Case{Route: cr.Text, API: "sequence", Vals: vals, WithOpt: wo})
+				} else {
+					l.Class("forward:sequence-on-one-router")
+				}
+			}
+		}
+	}
+	return first
+}
+
 func c12Run(r *core.Run) {
 	p, err := route.NewParser()
 	if err != nil {
@@ -278,6 +352,14 @@ func c12Run(r *core.Run) {
 					}
 				}
 			}
+		}
+	})
+
+	// every build of a route on ONE router instance, one after the other (in both directions): a build
+	// must not depend on the builds made before it
+	r.Parallel(func(w, nw int, l *core.Local) {
+		for ci := w; ci < len(cat); ci += nw {
+			c12Sequence(cat[ci], l)
 		}
 	})
 
@@ -390,6 +472,11 @@ func c12Replay(raw json.RawMessage) (bool, string) {
 	cat, bad := mkCatalogue(p, []string{c.Route})
 	if len(bad) > 0 {
 		return false, "route does not parse"
+	}
+	if c.API == "sequence" {
+		l := core.NewLocal()
+		bad := c12Sequence(cat[0], l)
+		return bad != "", bad
 	}
 	if c.API == "inverse" {
 		b, _ := c12Inverse(ref.NewMatcher(), cat[0], c.Path)
